@@ -51,19 +51,40 @@ def correspondence(ctx):
                 for how in ('f', 'l', 's'):
                     for form in ('b', 'o'):
                         cases.append(f'prof|{prof}|compare|{how}|{form}|{hexs(s)}|{hexs(order[0])}')
+    # (b2) ALL twelve combinations inside the harness (one line per input, `*`): every string up to length 2 (thorough 3) over
+    # characters on which some step of some pipeline acts (cased incl. final-sigma contexts, wide, composable, spaces,
+    # contextual, RTL), plus longer random ones
+    alpha = sorted(set(USER_ALPHA + FREE_ALPHA + CASED + [0x3A3, 0x3C3, 0x3C2, 0x391, 0x2D]))
+    alpha = xa(ctx, alpha)
+    bulk = [s for s in all_strings(alpha, 2 if ctx.tier == 'quick' else 3, 1)]
+    bulk += [[ctx.rng.choice(alpha) for _ in range(ctx.rng.randrange(3, 10))] for _ in range(400 if ctx.tier == 'quick' else 4000)]
+    bulk += long_strings(ctx, alpha, 8 if ctx.tier == 'quick' else 60)
+    ncomb = 0
+    for s in bulk:
+        for prof in ('um', 'up', 'op', 'nick'):
+            cases.append(f'prof|{prof}|enforce|*|*|{hexs(s)}|')
+            ncomb += 1
+    for s in bulk[::7]:
+        for prof in ('um', 'up', 'op', 'nick'):
+            cases.append(f'prof|{prof}|prepare|*|*|{hexs(s)}|')
+            cases.append(f'prof|{prof}|compare|*|*|{hexs(s)}|{hexs(bulk[(len(s) * 31) % len(bulk)])}')
+    corr.count('inputs_through_all_12_forms', ncomb)
     res = run_cases(cases, ctx.work)
     known = known_bidi(ctx)
     by_args = {}
     for case, impl_, model, verdict in res:
         f = case.split('|')
-        by_args.setdefault((f[1], f[2], f[5], f[6]), set()).add(impl_)
+        if f[3] != '*':
+            by_args.setdefault((f[1], f[2], f[5], f[6]), set()).add(impl_)
     for k, v in by_args.items():
         if len(v) != 1:
             corr.spec_violations.append((f'prof|{k[0]}|{k[1]}|*|*|{k[2]}|{k[3]}', ' vs '.join(sorted(v)), 'VIOLATED:results differ between API forms / instance kinds / call history'))
     # model comparison (pure function of the arguments); verdicts about RFC conformance are other properties' business
     for case, impl_, model, verdict in res:
         corr.evaluations += 1
-        if impl_ != model:
+        if impl_.startswith('FORMS-DIFFER'):
+            corr.spec_violations.append((case, impl_, 'VIOLATED:the content of the result depends on the API form / instance kind'))
+        elif impl_ != model:
             corr.disagreements.append((case, impl_, model))
         f = case.split('|')
         corr.nontrivial.add((f[1], f[2], f[3], f[4]))
